@@ -10,7 +10,8 @@ EXTENDS Ber, Ctl
 (* abstract requests *)
 Ids  == {"i0", "i1", "i2", "i3"}          \* message ids: 0, 127/128/.., 2^31-1, seed-chosen
 Strs4 == {"s0", "s1", "s2", "s3"}         \* s0 is the empty string
-Filters == {"f1", "f2", "f3", "f4", "f5", "f6", "f7", "f8", "f9", "f10", "f11", "f12"}
+\* f13..f16: long filters (beyond 64 bytes) in sibling pairs whose content is byte-identical and whose operator differs
+Filters == {"f1", "f2", "f3", "f4", "f5", "f6", "f7", "f8", "f9", "f10", "f11", "f12", "f13", "f14", "f15", "f16"}
 R(op, id, ver, dn, pw, scope, deref, size, time, types, filter, attrs, changes, addattrs, name, ctls) ==
   [op |-> op, id |-> id, ver |-> ver, dn |-> dn, pw |-> pw, scope |-> scope, deref |-> deref, size |-> size, time |-> time,
    types |-> types, filter |-> filter, attrs |-> attrs, changes |-> changes, addattrs |-> addattrs, name |-> name, ctls |-> ctls]
@@ -30,6 +31,7 @@ AV(type, vals) == [type |-> type, vals |-> vals]
 AppTag(op) == CASE op = "bind" -> 0 [] op = "unbind" -> 2 [] op = "search" -> 3 [] op = "modify" -> 6 [] op = "add" -> 8
                 [] op = "delete" -> 10 [] op = "moddn" -> 12 [] op = "compare" -> 14 [] op = "abandon" -> 16
                 [] op = "extended" -> 23 [] op = "app20" -> 20 [] op = "app30" -> 30
+                [] op = "app256" -> 256 [] op = "app258" -> 258 [] op = "app512" -> 512      \* tag numbers beyond one octet
 
 --------------------------------------------------------------------------
 (* controls on the wire, RFC form.  w = [t, oid, crit "absent"|"true"|"false", val] as in Ctl.tla *)
@@ -65,6 +67,9 @@ OpNode(r) ==
     [] r.op = "compare"  -> Cons("A", 14, <<BStr("s1"), BSeq(<<BStr("s2"), BStr("s3")>>)>>)
     [] r.op = "moddn"    -> Cons("A", 12, <<BStr("s1"), BStr("s2"), BBool("true")>>)
     [] r.op = "abandon"  -> Prim("A", 16, "i1")
+    \* high tag numbers whose low byte is a supported operation's tag, carrying that operation's fields
+    [] r.op \in {"app256", "app512"} -> Cons("A", AppTag(r.op), <<BInt("3"), BStr("s1"), Prim("C", 0, "s2")>>)
+    [] r.op = "app258"   -> Prim("A", 258, "")
     [] OTHER             -> Cons("A", AppTag(r.op), <<BStr("s1")>>)
 EncodeRequest(r) == BSeq(<<BInt(r.id), OpNode(r)>> \o EncodeCtls(r.ctls))
 
